@@ -1075,6 +1075,7 @@ func (m *Machine) builtinTyped(b *ssa.Builtin, cc *ssa.CallCommon, args []value)
 		m.release(c)
 		c.closed = true
 		m.event("close")
+		m.preemptPoint() // goroutines released by the close may run before the closer continues
 		return nil
 	case "delete":
 		m.mapDelete(args[0].(*hmap), args[1])
